@@ -69,38 +69,70 @@ func ya(kind string, addr unsafe.Pointer, arg uint64) {
 	}
 }
 
+// Trace, when non-nil, is told about every completed action that matters for the protocol-level trace
+// (with its outcome where the outcome is not implied): it never blocks and never yields.
+var Trace func(kind string, addr unsafe.Pointer, arg uint64)
+
+func note(kind string, addr unsafe.Pointer, arg uint64) {
+	if t := Trace; t != nil {
+		t(kind, addr, arg)
+	}
+}
+
 // Park is a yield point callable from user functions (valueFn, visitors, callbacks).
 func Park(tag string) { y("User:"+tag, nil, nil) }
 
 func LoadPointer(p *unsafe.Pointer) unsafe.Pointer {
 	y("LoadPointer", unsafe.Pointer(p), nil)
+	note("LoadPointer", unsafe.Pointer(p), 0)
 	return atomic.LoadPointer(p)
 }
 func StorePointer(p *unsafe.Pointer, v unsafe.Pointer) {
 	ya("StorePointer", unsafe.Pointer(p), uint64(uintptr(v)))
+	note("StorePointer", unsafe.Pointer(p), 0)
 	atomic.StorePointer(p, v)
 }
 func LoadUint64(p *uint64) uint64 { y("LoadUint64", unsafe.Pointer(p), nil); return atomic.LoadUint64(p) }
 func StoreUint64(p *uint64, v uint64) {
 	ya("StoreUint64", unsafe.Pointer(p), v)
+	if Trace != nil && atomic.LoadUint64(p)&1 == 1 && v&1 == 0 {
+		note("SpinUnlock", unsafe.Pointer(p), 0) // the bucket spin lock of Map is bit 0 of the word
+	}
+	note("StoreUint64", unsafe.Pointer(p), v)
 	atomic.StoreUint64(p, v)
 }
-func LoadInt64(p *int64) int64 { y("LoadInt64", unsafe.Pointer(p), nil); return atomic.LoadInt64(p) }
+func LoadInt64(p *int64) int64 {
+	y("LoadInt64", unsafe.Pointer(p), nil)
+	note("LoadInt64", unsafe.Pointer(p), 0)
+	return atomic.LoadInt64(p)
+}
 func StoreInt64(p *int64, v int64) {
 	ya("StoreInt64", unsafe.Pointer(p), uint64(v))
+	note("StoreInt64", unsafe.Pointer(p), uint64(v))
 	atomic.StoreInt64(p, v)
 }
 func AddInt64(p *int64, d int64) int64 {
 	ya("AddInt64", unsafe.Pointer(p), uint64(d))
+	note("AddInt64", unsafe.Pointer(p), uint64(d))
 	return atomic.AddInt64(p, d)
 }
 func CompareAndSwapUint64(p *uint64, o, n uint64) bool {
 	ya("CASUint64", unsafe.Pointer(p), n)
-	return atomic.CompareAndSwapUint64(p, o, n)
+	ok := atomic.CompareAndSwapUint64(p, o, n)
+	if ok && o&1 == 0 && n&1 == 1 {
+		note("SpinLock", unsafe.Pointer(p), 0)
+	}
+	return ok
 }
 func CompareAndSwapInt64(p *int64, o, n int64) bool {
 	ya("CASInt64", unsafe.Pointer(p), uint64(n))
-	return atomic.CompareAndSwapInt64(p, o, n)
+	ok := atomic.CompareAndSwapInt64(p, o, n)
+	if ok {
+		note("CASInt64", unsafe.Pointer(p), 1)
+	} else {
+		note("CASInt64", unsafe.Pointer(p), 0)
+	}
+	return ok
 }
 func Gosched() {
 	if Hook != nil {
@@ -128,9 +160,11 @@ func (m *Mutex) Lock() {
 			runtime.Gosched()
 		}
 	}
+	note("MutexLock", unsafe.Pointer(m), 0)
 }
 func (m *Mutex) Unlock() {
 	y("Unlock", unsafe.Pointer(m), nil)
+	note("MutexUnlock", unsafe.Pointer(m), 0)
 	if atomic.SwapInt32(&m.locked, 0) != 1 {
 		panic("vshim: unlock of unlocked mutex")
 	}
@@ -157,6 +191,7 @@ func NewCond(l Locker) *Cond { return &Cond{L: l, s: new(condState)} }
 func (c *Cond) Wait() {
 	t := atomic.AddInt64(&c.s.next, 1) - 1
 	y("CondWaitUnlock", unsafe.Pointer(c.s), nil)
+	note("CondPark", unsafe.Pointer(c.s), 0)
 	c.L.(*Mutex).unlockQuiet()
 	for atomic.LoadInt64(&c.s.released) <= t {
 		if Hook != nil {
@@ -174,6 +209,7 @@ func (m *Mutex) unlockQuiet() {
 }
 func (c *Cond) Broadcast() {
 	y("Broadcast", unsafe.Pointer(c.s), nil)
+	note("Broadcast", unsafe.Pointer(c.s), 0)
 	atomic.StoreInt64(&c.s.released, atomic.LoadInt64(&c.s.next))
 }
 func (c *Cond) Signal() {
